@@ -37,8 +37,8 @@ def m_substring_type(ctx):
 class SubstringType(Contract):
     fn = "gfapy/line/edge/gfa2/alignment_type.py::AlignmentType._substring_type"
     props = ("C11", "C04", "C06", "C07")
-    doc = ("interval [b,e] -> kind in the relation interval_kind_ok; ValueError iff b > e; FormatError iff `$` on b without `$` on e "
-           "(b != 0). The second result component is read by no caller and pinned by no property: unconstrained.")
+    doc = ("interval [b,e] -> kind in the relation interval_kind_ok; ValueError iff b > e; FormatError iff `$` on b and e is not that same last "
+           "position (no `$` on e, or another value; b != 0). The second result component is read by no caller and pinned by no property: unconstrained.")
 
     def cases(self, ctx):
         g = ctx.gfapy
